@@ -14,7 +14,12 @@ import (
 	"wa-lang.org/wa/api"
 	"wa-lang.org/wa/internal/3rdparty/wazero"
 	wzapi "wa-lang.org/wa/internal/3rdparty/wazero/api"
+	"wa-lang.org/wa/internal/backends/compiler_wat"
+	"wa-lang.org/wa/internal/config"
+	"wa-lang.org/wa/internal/loader"
 	"wa-lang.org/wa/internal/wat/watutil"
+	wawazero "wa-lang.org/wa/internal/wazero"
+	wasrc "wa-lang.org/wa/waroot/src"
 )
 
 // BuildWat compiles Wa source to WAT with the real front end and backend.
@@ -186,6 +191,96 @@ func view(ctx context.Context, m wzapi.Module) []byte {
 	b, _ := mem.Read(ctx, 0, mem.Size(ctx))
 	return b
 }
+
+// addVerifHost installs the allocator seam's host module.
+func addVerifHost(ctx context.Context, rt wazero.Runtime) error {
+	h := func(ctx context.Context) Host { x, _ := ctx.Value(hostKey{}).(Host); return x }
+	b := rt.NewHostModuleBuilder("verif_sim").
+		NewFunctionBuilder().WithFunc(func(ctx context.Context, m wzapi.Module, size uint32) uint32 {
+		return h(ctx).PreMalloc(view(ctx, m), size)
+	}).Export("pre_malloc").
+		NewFunctionBuilder().WithFunc(func(ctx context.Context, m wzapi.Module, ptr, size uint32) {
+		h(ctx).PostMalloc(view(ctx, m), ptr, size)
+	}).Export("post_malloc").
+		NewFunctionBuilder().WithFunc(func(ctx context.Context, m wzapi.Module, ptr uint32) uint32 {
+		return h(ctx).PreFree(view(ctx, m), ptr)
+	}).Export("pre_free").
+		NewFunctionBuilder().WithFunc(func(ctx context.Context, m wzapi.Module, ptr, n uint32) {
+		h(ctx).PostHeapAlloc(view(ctx, m), ptr, n)
+	}).Export("post_heapalloc")
+	_, err := b.Instantiate(ctx, rt)
+	return err
+}
+
+// TestPackage is a std package compiled together with its tests
+// (cfg.UnitTest), with the allocator seam, ready to run test functions on
+// fresh instances through the repository's own wazero wrapper (which provides
+// the syscall_js host functions, so output is captured).
+type TestPackage struct {
+	Path     string
+	Tests    []string // exported test function names (wasm names)
+	HeapBase uint32
+	m        *wawazero.Module
+}
+
+// StdTestPackages lists the std packages that have tests.
+func StdTestPackages() []string { return wasrc.GetStdTestPkgList() }
+
+func BuildTestPackage(pkgpath string) (*TestPackage, error) {
+	cfg := config.DefaultConfig()
+	cfg.UnitTest = true
+	prog, err := loader.LoadProgram(cfg, pkgpath)
+	if err != nil {
+		return nil, err
+	}
+	mainPkg := prog.Pkgs[prog.Manifest.MainPkg]
+	if mainPkg == nil || mainPkg.TestInfo == nil || len(mainPkg.TestInfo.Tests) == 0 {
+		return nil, nil // no tests
+	}
+	out, err := compiler_wat.New().Compile(prog)
+	if err != nil {
+		return nil, err
+	}
+	wat, err := Instrument([]byte(out))
+	if err != nil {
+		return nil, err
+	}
+	wasm, err := Wat2Wasm(wat)
+	if err != nil {
+		return nil, err
+	}
+	tp := &TestPackage{Path: pkgpath}
+	if m := reHeapBase.FindSubmatch(wat); m != nil {
+		fmt.Sscan(string(m[1]), &tp.HeapBase)
+	}
+	for _, t := range mainPkg.TestInfo.Tests {
+		if t.OutputPanic {
+			continue // expected-panic tests end in a trap by design
+		}
+		tp.Tests = append(tp.Tests, strings.ReplaceAll(mainPkg.Pkg.Path()+"."+t.Name, "/", "$"))
+	}
+	tp.m, err = wawazero.VerifBuildModule("unittest://"+pkgpath, wasm, prog.Fset.ToJson(), addVerifHost)
+	if err != nil {
+		return nil, err
+	}
+	return tp, nil
+}
+
+// Run executes one test function on a fresh instance under the given host.
+func (tp *TestPackage) Run(test string, h Host) (stdout string, errText string) {
+	tp.m.VerifReset(context.WithValue(context.Background(), hostKey{}, h))
+	_, so, se, err := tp.m.RunFunc(test)
+	if err != nil {
+		errText = err.Error()
+		if i := strings.IndexByte(errText, '\n'); i >= 0 {
+			errText = errText[:i]
+		}
+	}
+	return string(so) + string(se), errText
+}
+
+func (tp *TestPackage) Mem() []byte { return tp.m.VerifMemory() }
+func (tp *TestPackage) Close()      { tp.m.Close() }
 
 func Compile(wasm []byte) (*Compiled, error) {
 	ctx := context.Background()
